@@ -140,13 +140,13 @@ theorem readUHex_roundtrip (n : Nat) (hn : n < 2 ^ 31) (rest : List Char) :
 def consUnit (u : Spec.SUnit) (x : Option (List Spec.SUnit × List Char)) : Option (List Spec.SUnit × List Char) :=
   x.map fun (v, r) => (u :: v, r)
 
-theorem strBody_plain (q c : Char) (f : Nat) (cs : List Char) (h1 : c ≠ q) (h2 : c ≠ '\n') (h3 : c ≠ '\r')
+theorem sw_strBody_plain (q c : Char) (f : Nat) (cs : List Char) (h1 : c ≠ q) (h2 : c ≠ '\n') (h3 : c ≠ '\r')
     (h4 : c ≠ '\\') :
     Spec.strBody q (f + 1) (c :: cs) = consUnit (.ch c.toNat) (Spec.strBody q f cs) := by
   rw [Spec.strBody.eq_def]
   simp [h1, h2, h3, h4, consUnit]
 
-theorem strBody_simple (q d : Char) (f : Nat) (r : List Char) (hq : q ≠ '\\') (hx : d ≠ 'x') (hu : d ≠ 'u')
+theorem sw_strBody_simple (q d : Char) (f : Nat) (r : List Char) (hq : q ≠ '\\') (hx : d ≠ 'x') (hu : d ≠ 'u')
     (hz : d ≠ 'z') (hd : Spec.isDigit d = false) (v : Nat) (he : Spec.escChar d = some v) :
     Spec.strBody q (f + 1) ('\\' :: d :: r) = consUnit (.ch v) (Spec.strBody q f r) := by
   rw [Spec.strBody]
@@ -190,21 +190,21 @@ theorem strBody_escapeChar {tbl : List (Char × Char)} (hok : EscTableOK tbl = t
       · simp [h]
     have he : Spec.escChar c = some c.toNat := by
       rcases hc with rfl | rfl | rfl <;> rfl
-    refine strBody_simple q c f tail hqb ?_ ?_ ?_ ?_ _ he <;>
+    refine sw_strBody_simple q c f tail hqb ?_ ?_ ?_ ?_ _ he <;>
       rcases hc with rfl | rfl | rfl <;> decide
   · rw [if_neg h1]
     simp only [Bool.or_eq_true, beq_iff_eq, not_or] at h1
     by_cases h2 : (decide (32 ≤ c.toNat) && decide (c.toNat < 127)) = true
     · rw [if_pos h2]
       simp only [Bool.and_eq_true, decide_eq_true_eq] at h2
-      refine strBody_plain q c f tail h1.1 ?_ ?_ h1.2
+      refine sw_strBody_plain q c f tail h1.1 ?_ ?_ h1.2
       · intro h; subst h; revert h2; decide
       · intro h; subst h; revert h2; decide
     · rw [if_neg h2]
       cases hl : tbl.lookup c with
       | some l =>
         obtain ⟨e1, e2, e3, e4, e5⟩ := escTable_lookup hok hl
-        exact strBody_simple q l f tail hqb e2 e3 e4 e5 _ e1
+        exact sw_strBody_simple q l f tail hqb e2 e3 e4 e5 _ e1
       | none =>
         by_cases h3 : c.toNat < 128
         · simp only [h3, if_true, hex2, List.cons_append, List.nil_append]
